@@ -820,10 +820,13 @@ package spec
 
 //@ func (*schemaLoader).deref
 //@   property C04, C08, C18
+//@   appendview
 //@   requires wfResolver(r) && canonBase(basePath)
 //@   requires sepFrom(payload(input), r, parentRefs) && allocated(payload(input))
 //@   requires [C04] distinct-stack @@ distinctStr(parentRefs)
 //@   assumes  [C04] documents-have-paths @@ hasPrefix(urlPath(normURI(refString(derefRefOf(input)), basePath)), "/")
+//@   uses     verifLemmaNormIdem.norm-idempotent(refString(derefRefOf(input)), basePath)
+//@   uses     verifLemmaNormIdem.norm-canonical(refString(derefRefOf(input)), basePath)
 //@   assigns  region(payload(input)), modelmaps(), spare(parentRefs), map(r.context.circulars), ghost(decodedFrom, cacheDom, cacheDoc, calls, failures)
 //@   requires holds(input, "*Schema") || holds(input, "*Parameter") || holds(input, "*Response") || holds(input, "*PathItem")
 //@   requires payload(input) != nil
